@@ -181,3 +181,15 @@ Definition run_fs (c : value) : value :=
       end
   | _ => verr
   end.
+
+(* family "fsm": several requests through ONE handler object; the handler keeps no state between requests, so each
+   answer is that of a fresh handler.   case ::= ( tree rootspec ((path headers)..) version [(meta..)] ) *)
+Definition run_fsm (c : value) : value :=
+  match c with
+  | VL (VL tree :: VB rootspec :: VL reqs :: VB ver :: _) =>
+      VL (map (fun rq => match rq with
+                         | VL [VB path; VL hdrs] => run_fs (VL [VL tree; VB rootspec; VB path; VL hdrs; VB ver])
+                         | _ => verr
+                         end) reqs)
+  | _ => verr
+  end.
